@@ -215,7 +215,31 @@ def specItems : List WItem → List C32.Item
   | .verb s :: rest => .text s :: specItems rest
   | .ph n d f _ :: rest => .ph n (if d.isEmpty && f.isEmpty then none else some ([], none)) :: specItems rest
 
-def oracleCap (items : List WItem) (aliases : List (Str × Str)) (obs : List String) : String :=
+/-- case-mapping table observed on Rust core for the non-ASCII samples: `L <text> <lower> <upper>` -/
+def caseTable : List String → Option (List (Str × Str × Str))
+  | [] => some []
+  | "L" :: t :: l :: u :: rest => do
+    let t ← strOfHex t
+    let l ← strOfHex l
+    let u ← strOfHex u
+    let r ← caseTable rest
+    pure ((t, l, u) :: r)
+  | _ => none
+
+/-- the driver's primitives, with Rust core's answers for the listed non-ASCII texts -/
+def primsWith (tbl : List (Str × Str × Str)) : Prims where
+  parseF64 := prims.parseF64
+  lower := fun s => match prims.lower s with
+    | some r => some r
+    | none => (tbl.find? (·.1 == s)).map (·.2.1)
+  upper := fun s => match prims.upper s with
+    | some r => some r
+    | none => (tbl.find? (·.1 == s)).map (·.2.2)
+
+def oracleCap (items : List WItem) (aliases : List (Str × Str)) (obs0 : List String) : String :=
+  let (obs, prims) := match obs0 with
+    | "ok" :: w :: tbl => (["ok", w], primsWith ((caseTable tbl).getD []))
+    | o => (o, prims)
   match capsOfItems items with
   | .ok caps =>
     (match C32.expected prims caps, obs with
